@@ -50,8 +50,9 @@ class Chan:
 # zygote
 
 
-def start_zygote(env: dict) -> tuple[int, socket.socket]:
-    """Fork a zygote that imports spsdk.utils.database under `env`; returns (pid, control socket)."""
+def start_zygote(env: dict, bare: bool = False) -> tuple[int, socket.socket]:
+    """Fork a zygote that imports spsdk.utils.database under `env`; returns (pid, control socket).
+    A bare zygote imports nothing of SPSDK: its children import it themselves, under the interposer, as part of their start."""
     parent_sock, child_sock = socket.socketpair(socket.AF_UNIX, socket.SOCK_STREAM)
     pid = os.fork()
     if pid:
@@ -66,12 +67,21 @@ def start_zygote(env: dict) -> tuple[int, socket.socket]:
         os.environ.update(env)
         import logging
 
-        import spsdk
-        from spsdk.utils import database
+        if bare:
+            assert "spsdk" not in sys.modules
+            # third-party and standard modules only, so that a child's own import of spsdk is short
+            import pickle  # noqa: F401 pylint: disable=unused-import
 
-        repo = os.environ.get("VERIF_REPO", "/repo")
-        assert os.path.realpath(spsdk.__file__).startswith(os.path.realpath(repo) + os.sep), spsdk.__file__
-        assert database.DatabaseManager._instance is None
+            import filelock  # noqa: F401 pylint: disable=unused-import
+            import platformdirs  # noqa: F401 pylint: disable=unused-import
+            import ruamel.yaml  # noqa: F401 pylint: disable=unused-import
+        else:
+            import spsdk
+            from spsdk.utils import database
+
+            repo = os.environ.get("VERIF_REPO", "/repo")
+            assert os.path.realpath(spsdk.__file__).startswith(os.path.realpath(repo) + os.sep), spsdk.__file__
+            assert database.DatabaseManager._instance is None
         logging.disable(logging.CRITICAL)
         _zygote_loop(child_sock)
     except BaseException:  # pylint: disable=broad-except
@@ -622,6 +632,8 @@ def child_main(chan: Chan, spec: dict) -> None:
         chan.send = _s
         chan.recv = _r
     try:
+        if spec.get("env"):
+            os.environ.update(spec["env"])
         S.install()
         S.park("start")
         answers = {}
@@ -633,6 +645,15 @@ def child_main(chan: Chan, spec: dict) -> None:
             keys = battery_keys()
         cur = None
         try:
+            if spec.get("fresh_import"):
+                # the process starts from nothing: importing SPSDK is part of its start (and may touch the cache folder)
+                cur = "import spsdk"
+                import spsdk
+                import spsdk.utils.database  # noqa: F401 pylint: disable=unused-import
+
+                repo = os.environ.get("VERIF_REPO", "/repo")
+                if not os.path.realpath(spsdk.__file__).startswith(os.path.realpath(repo) + os.sep):
+                    raise RuntimeError(f"harness: spsdk imported from {spsdk.__file__}")
             for cur in keys:
                 answers[cur] = _h(safe_answer(cur))
             chan.send({"done": 1, "answers": answers, "stats": S.stats})
